@@ -33,7 +33,7 @@ impl<'a> Rope<'a> {
       self.bytes().len() <= usize::MAX,
   {
     let d = self.data();
-    if self.is_full() && d.len() > 0 { assert(d.take(d.len() - 1) =~= d.drop_last()); }
+    if self.is_full() && d.len() > 0 { lemma_chunk_at(d, d.len() - 1); }
   }
 }
 """
@@ -64,7 +64,7 @@ def d3_capacity(it, fn):
 
 PUSH2 = ("proof {\n"
          "  let e = Seq::<(&str, usize)>::empty();\n"
-         "  assert(chunks_wf(e));\n"
+         "  lemma_chunks_wf_empty();\n"
          "  lemma_chunks_push(e, (*s, 0usize));\n"
          "  lemma_chunks_push(e.push((*s, 0usize)), (%s, s.spec_bytes().len() as usize));\n"
          "  assert(%s@ =~= e.push((*s, 0usize)).push((%s, s.spec_bytes().len() as usize)));\n"
@@ -95,6 +95,7 @@ def build_ctor(u):
     a.at("add", "after", r"let\s+vec\s*=\s*vec!\[[^;]*;", "Rope::add.hint.light", "hint", PUSH2 % ("value", "vec", "value"), regex=True, nth=1)
     a.at("add", "before", r"Rc::make_mut\(data\)\.push", "Rope::add.hint.full", "hint",
          "proof { old(self).lemma_last(); lemma_chunks_push(data@, (value, len)); }", regex=True, nth=1)
+    a.body_start("add", "Rope::add.hint.len", "hint", "proof { old(self).lemma_last(); }")
     a.body_start("add", "canary.Rope::add", "canary", "proof { assert(false); }")
 
     ap = u.method("src/rope.rs", IMPL, "append")
@@ -115,7 +116,7 @@ def build_ctor(u):
           "proof { old(self).lemma_last(); lemma_chunks_push(s@, (other, len)); }", regex=True, nth=1)
     ap.at("append", "before", r"raw\.push\(\(\*s, 0\)\);", "Rope::append.ghost.lf", "ghost", "let ghost b0 = s.spec_bytes();", regex=True, nth=1, optional=False)
     ap.at("append", "before", r"raw\.push\(\(\*s, 0\)\);", "Rope::append.hint.lf", "hint",
-          "proof { let e = Seq::<(&str, usize)>::empty(); assert(chunks_wf(e)); lemma_chunks_push(e, (*s, 0usize)); assert(other@.take(0) =~= e); }", regex=True, nth=1)
+          "proof { let e = Seq::<(&str, usize)>::empty(); lemma_chunks_wf_empty(); lemma_chunks_push(e, (*s, 0usize)); assert(other@.take(0) =~= e); }", regex=True, nth=1)
     ap.loop("append", 2, [("Rope::append.loop2.inv", "contract", LOOP_INV % ("raw", "raw", "raw"))])
     ap.loop_body_start("append", 2, "Rope::append.hint.loop2", "hint",
                        "proof { lemma_chunks_take(other@, it.index@ as int); lemma_chunks_push(raw@, (p_item.0, len)); }")
@@ -123,10 +124,69 @@ def build_ctor(u):
     for k, anchor in ((1, r"\(Repr::Full\(s\), Repr::Light\(other\)\) =>"), (2, r"self\.repr = Repr::Full\(Rc::new\(raw\)\);")):
         _, _, bc = ap.loop_span("append", k)
         ap.buf.insert_at(bc + 1, ["    proof { assert(other@.take(other@.len() as int) =~= other@); }"], ap._org(f"Rope::append.hint.end{k}", "hint", "append", None))
+    ap.body_start("append", "Rope::append.hint.len", "hint", "proof { old(self).lemma_last(); }")
     ap.body_start("append", "canary.Rope::append", "canary", "proof { assert(false); }")
     ap.loop_body_start("append", 1, "canary.Rope::append.loop1", "canary", "proof { assert(false); }")
     ap.loop_body_start("append", 2, "canary.Rope::append.loop2", "canary", "proof { assert(false); }")
     u.contracted += [("Rope::new", "src/rope.rs"), ("Rope::len", "src/rope.rs"), ("Rope::add", "src/rope.rs"), ("Rope::append", "src/rope.rs")]
+
+
+def c3_search_closure(it, fn, nth, spec):
+    """C3: the n-th `.binary_search_by(|(a, b)| E)` of fn -> typed closure over `p_item: &(&str, usize)` that binds the
+    tuple's fields by reference to the names the pattern used, with the contract given in the sidecar (Verus checks
+    the closure body against it; Verus has no closures with tuple patterns)"""
+    s = it.buf.text
+    mask = code_mask(s)
+    lo, _, hi = it.fn_span(fn)
+    ms = [m for m in re.finditer(r"\.binary_search_by\(\s*\|\((\w+), (\w+)\)\|\s*", s) if lo <= m.start() < hi and mask[m.start()]]
+    if len(ms) < nth:
+        raise Lost(f"rule C3: binary_search_by closure {nth} not found in {fn}")
+    m = ms[nth - 1]
+    p = s.index("(", m.start())
+    q = match_close(s, mask, p)
+    body = s[m.end():q].strip()
+    if body.startswith("{"):
+        body = body[1:body.rindex("}")].strip()
+    binds = "".join(f"let {name} = &p_item.{k}; " for k, name in enumerate((m.group(1), m.group(2))) if name != "_")
+    new = f".binary_search_by(|p_item: &(&str, usize)| -> (o: Ordering)\n  {spec}\n  {{ {binds}{body} }})"
+    l, _ = it.buf.pos(m.start())
+    it.rules_applied.append({"rule": "C3", "file": it.relpath, "line": it._repo_line(l), "from": s[m.start():q + 1][:120], "to": "typed closure, tuple fields bound by reference, sidecar contract"})
+    it.buf.replace_span(m.start(), q + 1, new, ("rule", "C3"))
+
+
+def c4_simple_closure(it, fn):
+    """C1/C4: `.unwrap_or_else(|x| E)` on the search result -> `|x: usize| -> (r: usize) ensures r == spec(E) { E }`
+    (the spec is the closure's own body, `saturating_sub(1)` spelled out)"""
+    def repl(m):
+        e = m.group(2).strip()
+        spec = re.sub(r"(\w+)\.saturating_sub\(1\)", r"(if \1 == 0 { 0usize } else { (\1 - 1) as usize })", e)
+        return f".unwrap_or_else(|{m.group(1)}: usize| -> (r: usize) ensures r == {spec} {{ {e} }})"
+    return it.rule_opt("C4", r"\.unwrap_or_else\(\|(\w+)\|\s*([^|{}]*?)\)(?=[;\n])", repl, fn=fn)
+
+
+def build_get_byte(u):
+    g = u.method("src/rope.rs", IMPL, "get_byte")
+    c3_search_closure(g, "get_byte", 1, "ensures o == cmp3(p_item.1, byte_index)")
+    c4_simple_closure(g, "get_byte")
+    g.sig("get_byte", [("Rope::get_byte.requires", "contract", "requires self.wf()"),
+                       ("Rope::get_byte.ensures", "contract",
+                        "ensures r == (if byte_index < self.bytes().len() { Some(self.bytes()[byte_index as int]) } else { None::<u8> })")], ret="r")
+    g.at("get_byte", "before", r"let\s+chunk_index\s*=", "Rope::get_byte.hint.sorted", "hint",
+         "proof {\n"
+         "  self.lemma_last();\n"
+         "  assert forall|i: int, j: int| 0 <= i < j < data@.len() implies (#[trigger] data@[i]).1 <= (#[trigger] data@[j]).1 by { lemma_chunks_order(data@, i, j); }\n"
+         "}", regex=True, nth=1)
+    g.at("get_byte", "before", r"let\s+\(s,\s*start_pos\)\s*=", "Rope::get_byte.hint.found", "hint",
+         "proof {\n"
+         "  let d = data@; let c = chunk_index as int;\n"
+         "  lemma_chunk_at(d, 0);\n"
+         "  assert(0 <= c < d.len());\n"
+         "  lemma_chunk_at(d, c);\n"
+         "  assert(d[c].1 <= byte_index < d[c].1 + clen(d, c));\n"
+         "  assert(chunks_bytes(d)[byte_index as int] == chunks_bytes(d).subrange(d[c].1 as int, d[c].1 + clen(d, c))[byte_index - d[c].1]);\n"
+         "}", regex=True, nth=1)
+    g.body_start("get_byte", "canary.Rope::get_byte", "canary", "proof { assert(false); }")
+    u.contracted += [("Rope::get_byte", "src/rope.rs")]
 
 
 def build(u):
@@ -142,4 +202,5 @@ def build(u):
     u.raw(GLUE_VIEW, ("glue", NAME))
     u.raw(IMPL, ("glue", NAME))
     build_ctor(u)
+    build_get_byte(u)
     u.raw("}", ("glue", NAME))
